@@ -783,6 +783,47 @@ class FnAnalysis:
         st = State(self.exit_env[rbs[0]], self.exit_facts[rbs[0]])
         return self.read(st, (("L", 0), ()))
 
+    def ret_leaves(self, limit=4096):
+        """Expand the returned value along the merges that produced it: list of (term, State) where State is the
+        state on the edge the value arrived on (so its facts are the path facts of that value)."""
+        from .terms import rebuild
+        rbs = self.return_blocks()
+        if len(rbs) != 1:
+            return None
+        rb = rbs[0]
+        st0 = State(self.exit_env[rb], self.exit_facts[rb])
+        t0 = self.read(st0, (("L", 0), ()))
+        out = []
+        work = [(t0, st0, rb)]
+        while work:
+            if len(out) + len(work) > limit:
+                return None
+            t, st, at = work.pop()
+            ph = None
+            for x in t.subterms():
+                if x.op == "phi" and x.args[0][0] == self.fid and x in self.phi_ops:
+                    blk = x.args[0][1]
+                    # only expand merges that dominate the point the value was observed at
+                    if all((p, blk) in self.out_states for p in self.phi_ops[x]):
+                        if ph is None or self.rpo_index[blk] > self.rpo_index[ph.args[0][1]]:
+                            ph = x
+            if ph is None or ph.args[0][1] in self.loops:
+                out.append((t, st))
+                continue
+            blk = ph.args[0][1]
+            for p, v in self.phi_ops[ph].items():
+                est = self.out_states[(p, blk)]
+                # all phis of the same merge block are resolved together
+                mp = {}
+                for y in t.subterms():
+                    if y.op == "phi" and y.args[0] == ph.args[0] and y in self.phi_ops and p in self.phi_ops[y]:
+                        mp[y] = self.phi_ops[y][p]
+                work.append((rebuild(t, mp), est, p))
+        return out
+
+    def value_at(self, st, lv):
+        return self.read(st, lv)
+
     def state_before_term(self, b):
         return State(self.exit_env[b], self.exit_facts[b])
 
